@@ -62,6 +62,9 @@ def cev(ev):
         return "(RegisterCopy %s %s)" % (cstr(ev[1]), coq_Z(ev[2]))
     if k == "RegisterCopyPriv":
         return "(RegisterCopyPriv %s %s %s)" % (cstr(ev[1]), coq_Z(ev[2]), "true" if ev[5] else "false")
+    if k == "Declare":
+        names = None if ev[2] is None else sysm_ifaces()[ev[2]][1]
+        return "(Declare %s %s)" % (coq_Z(ev[1]), "None" if names is None else "(Some %s)" % coq_list(names, cstr))
     if k == "Serve":
         return "(Serve %s %s)" % (cstr(ev[1]), coq_Z(ev[2]))
     if k == "Revoke":
@@ -107,7 +110,7 @@ Fixpoint trace (w : world) (st : state) (h : list event) :=
 Definition final (w : world) (h : list event) :=
   let st := fst (run w init h) in
   (map (fun x => (sb (fst x), snd x)) (s_n2r st), map (fun x => (fst x, sb (snd x))) (s_r2n st),
-   map (fun x => sb (fst x)) (s_copy st)).
+   map (fun x => sb (fst x)) (s_copy st), map (fun x => (fst x, map sb (snd x))) (s_decl st)).
 """
 
 
@@ -164,23 +167,30 @@ class Gen:
                 out.append(["O", self.pick(DATA_TYPES * 2 + BAD_TYPES)])
         return out
 
-    def event(self, sysm, snap, seen, req, copyreg, i=99):
+    def event(self, sysm, snap, seen, req, copyreg, i=99, touched=()):
         r = self.r.random()
         c = self.pick(["A", "B"])
         if i < 6 and r > 0.34:
             r = self.pick([0.1, 0.1, 0.1, 0.22, 0.3, r])      # histories start with grants / registrations
         if r < 0.20:
-            return ["Grant", c, self.pick([1, 2, 3, 4, 5, 6, 7, 8]), sysm.next_swiss()]
+            return ["Grant", c, self.pick([1, 2, 3, 4, 5, 6, 7, 8, 9, 10, 11, 12, 9, 3]), sysm.next_swiss()]
         if r < 0.26:
-            nm, ob = self.pick(PUB_NAMES), self.pick([1, 2, 3, 4, 5, 6])
+            nm, ob = self.pick(PUB_NAMES), self.pick([1, 2, 3, 4, 5, 6, 9, 10, 11])
             if snap["names"].get(nm, ob) != ob:
                 nm = ""
             return ["Register", nm, ob, sysm.next_swiss()]
         if r < 0.29:
-            return ["Unregister", self.pick([1, 2, 3, 4, 5, 6])]
+            return ["Unregister", self.pick([1, 2, 3, 4, 5, 6, 9, 10, 11])]
         if r < 0.34:
             return ["RegisterCopy", self.pick(COPY_NAMES[:3] + ["my.rc"]), self.pick([2, 3, 1, 2, 3])]
         q0 = self.r.random()
+        fresh = [w_ for w_ in sysm_declarable() if w_ not in touched]
+        if fresh and (q0 > 0.88 or (i < 8 and q0 > 0.70)):
+            # a RemoteInterface declared (or withdrawn) on an instance that has not been sent or called yet
+            wid = self.pick(fresh)
+            if wid in snap["decl"] and self.r.random() < 0.3:
+                return ["Declare", wid, None, self.pick(["nolonger", "direct"])]
+            return ["Declare", wid, self.pick(sorted(sysm_ifaces())), self.pick(["direct", "also"])]
         if q0 < 0.045:
             which = self.pick([0, 0, 1])
             return ["RegisterCopyPriv", self.pick(sysm_priv_names()), self.pick([1, 2, 3]), which,
@@ -232,6 +242,16 @@ class Gen:
 def sysm_handler_names():
     from harness import c06_impl as impl
     return impl.HANDLER_NAMES
+
+
+def sysm_ifaces():
+    from harness import c06_impl as impl
+    return impl.IFACES
+
+
+def sysm_declarable():
+    from harness import c06_impl as impl
+    return impl.DECLARABLE
 
 
 def sysm_priv_names():
@@ -346,9 +366,12 @@ class Oracle:
                     elif m is None or e[2] != impl.PREFIX + m or not e[2].startswith(impl.PREFIX):
                         why = "attribute %r entered for method name %r" % (e[2], mb)
                     else:
-                        wd = impl_world()[e[1]]
-                        if wd["iface"] is not None and m not in wd["iface"]:
-                            why = "method %r is not in the object's RemoteInterface %r" % (m, wd["iface"])
+                        names_, level_ = o["iface_now"].get(e[1], (None, None))
+                        if names_ == "several":
+                            why = "object %r provides several RemoteInterfaces and was entered" % e[1]
+                        elif names_ is not None and m not in names_:
+                            why = ("method %r is not in the RemoteInterface %r this instance exposes (declared on the %s; "
+                                   "computed with zope.interface.providedBy)" % (m, names_, level_))
                 else:
                     h = self.held[c].get(clid)
                     if clid >= 0 or not h or h[1] <= 0 or h[0] != e[1]:
@@ -403,6 +426,7 @@ def run_history(ctx, impl, events=None, n=25, gen=None):
     orc.prev = sysm.snapshot()
     evs, obs, fails = [], [], []
     seen = {"A": set(), "B": set()}
+    touched = set()      # objects that were ever in an export table (sent at least once): getInterface() may have run on them
     req = {"A": 0, "B": 0}
     snap = orc.prev
     dead_probes = 0
@@ -420,25 +444,27 @@ def run_history(ctx, impl, events=None, n=25, gen=None):
             else:
                 if i >= n or dead_probes > 3:
                     break
-                ev = gen.event(sysm, snap, seen, req, orc.copyreg, i)
+                ev = gen.event(sysm, snap, seen, req, orc.copyreg, i, touched)
             i += 1
             o = sysm.do(ev)
             if ev[0] == "Register":
                 r2 = sysm.rnames()
                 o["regname"] = r2.get(ev[2])       # the name part of the FURL registerReference returned
+            o["iface_now"] = {w_: impl.declared_iface(sysm.objs[w_]) for w_ in sysm.objs if w_ not in impl.CALLABLES}
             if ev[0] == "RegisterCopy":
                 from foolscap import copyable
                 o["copykeys"] = list(copyable.CopyableRegistry.keys())
             snap = o["snap"]
             for c in ("A", "B"):
                 seen[c].update(snap[c])
+                touched.update(v[0] for v in snap[c].values())
             if o["out"] == "Dead":
                 dead_probes += 1
             evs.append(ev)
             obs.append(o)
             orc.check(ev, o, lambda sig, what, extra=None, i=i: fails.append((sig, what, i - 1, extra)))
     finally:
-        final = dict(names=sysm.names(), rnames=sysm.rnames())
+        final = dict(names=sysm.names(), rnames=sysm.rnames(), decl=sysm.decls())
         from foolscap import copyable
         final["copy"] = sorted(copyable.CopyableRegistry.keys())
         sysm.close()
@@ -508,8 +534,9 @@ def correspond(ctx, impl, hists, tag):
                 n2r = {bytes(n).decode(): o for n, o in fin[0]}
                 r2n = {o: bytes(n).decode() for o, n in fin[1]}
                 cp = sorted(bytes(n).decode() for n in fin[2])
-                if n2r != final["names"] or r2n != final["rnames"] or cp != final["copy"]:
-                    bad = dict(step="final", model=[n2r, r2n, cp], impl=[final["names"], final["rnames"], final["copy"]])
+                dcl = {o: [bytes(n).decode() for n in ns] for o, ns in fin[3]}
+                if n2r != final["names"] or r2n != final["rnames"] or cp != final["copy"] or dcl != final["decl"]:
+                    bad = dict(step="final", model=[n2r, r2n, cp, dcl], impl=[final["names"], final["rnames"], final["copy"], final["decl"]])
         if bad:
             nbad += 1
             if nbad <= 3:
@@ -548,6 +575,77 @@ def correspond_decref(ctx):
             ctx.fail("correspondence/tracker-decref", "translated decref(%d) with refcount %d gives %r, the original %r" % (n, rc, got, exp),
                      replay=dict(count=n, refcount=rc, model=got, impl=exp), has_input=False)
     ctx.extra["decref_grid"] = len(grid)
+
+
+def interface_order_family():
+    """deterministic sweep: for every class without a RemoteInterface of its own, two (or three) of its instances with
+    different per-instance declarations, used in both orders, on one or two connections; every method tried on each"""
+    B_ = lambda t: list(t.encode())
+    groups = [(3, 9, 1), (2, 4, None), (10, 12, None), (3, 10, 9)]     # P1 x3, P2 x2, P1b x2, P1 + its subclass P1b
+    hs = []
+    for a, b, c3 in groups:
+        for decl_a, decl_b in [(None, "RIRead"), ("RIOther", "RIRead"), ("RIThing", None), ("RIRead", "RIOther")]:
+            for first in (0, 1):
+                for how in ("direct", "also"):
+                    h = []
+                    objs = [(a, decl_a), (b, decl_b)] + ([(c3, "RIOther")] if c3 else [])
+                    for w_, d_ in objs:
+                        if d_:
+                            h.append(["Declare", w_, d_, how])
+                    order = objs if first == 0 else list(reversed(objs))
+                    conns = ["A", "B"] if how == "also" else ["A", "A"]
+                    clid = {"A": 0, "B": 0}
+                    req = 0
+                    for k_, (w_, d_) in enumerate(order):
+                        cn = conns[k_ % 2]
+                        h.append(["Grant", cn, w_, ""])
+                        clid[cn] += 1
+                        for m_ in ("hi", "x", "hidden", ""):
+                            req += 1
+                            h.append(["Msg", cn, req, clid[cn], B_(m_), []])
+                    hs.append(h)
+    return hs
+
+
+REDECLARE_SIG = "oracle/interface-redeclared-after-use-ignored"
+
+
+def redeclare_probe(ctx, impl):
+    """Nearby behaviour of the UNCHANGED code (outside the modelled domain, where declarations precede first use):
+    Referenceable.getInterface memoises a non-None RemoteInterface on the instance for ever, so an application that narrows
+    or withdraws an instance's declaration AFTER the object was first sent keeps the old interface exposed.  Judged against
+    the instance's current declaration this is an unjustified entry; it is reported as a violation only once the lead has
+    listed the signature in known_findings.json (until then: a note and an evidence entry, so the clean tree stays exit 0)."""
+    B_ = lambda t: list(t.encode())
+    hist = [["Declare", 9, "RIThing", "direct"], ["Grant", "A", 9, ""], ["Msg", "A", 1, 1, B_("hi"), []],
+            ["Declare", 9, "RIOther", "direct"],             # after first use: now only `x` is exposed
+            ["Msg", "A", 2, 1, B_("hi"), []],                # hi is no longer part of what the instance declares
+            ["Declare", 9, None, "nolonger"], ["Declare", 9, "RIRead", "also"],
+            ["Msg", "A", 3, 1, B_("x"), []]]
+    sysm = impl.System()
+    stale = []
+    try:
+        for ev in hist:
+            ev = list(ev)
+            if ev[0] == "Grant":
+                ev[3] = sysm.next_swiss()
+            o = sysm.do(ev)
+            if ev[0] == "Msg":
+                names, _ = impl.declared_iface(sysm.objs[9])
+                m = bytes(ev[4]).decode()
+                ent = [e for e in o["entered"] if e[0] == "obj"]
+                if ent and names is not None and m not in names:
+                    stale.append(dict(method=m, declared_now=names, entered=ent[0][2]))
+    finally:
+        sysm.close()
+    ctx.extra["redeclare_after_use_stale_entries"] = stale
+    if stale:
+        what = ("an instance whose RemoteInterface declaration was changed after it was first sent keeps its first interface: "
+                "%r; history %r" % (stale, hist))
+        if ("C06", REDECLARE_SIG) in common.load_known():
+            ctx.fail(REDECLARE_SIG, what, replay=dict(history=hist, stale=stale))
+        else:
+            ctx.note("candidate finding (not listed in known_findings.json, so only noted): " + what[:400])
 
 
 def shrink(ctx, impl, evs, sig):
@@ -611,6 +709,14 @@ def run(ctx):
         evs, obs, final, fails = run_history(ctx, impl, events=d["history"])
         account(evs, obs, final, fails, os.path.basename(p))
         ctx.hist("origin", "corpus")
+    # 1b. deterministic sweep over per-instance RemoteInterface declarations and orders of first use
+    fam = interface_order_family()
+    if ctx.tier != "thorough":
+        fam = fam[::2]
+    for i, h in enumerate(fam):
+        evs, obs, final, fails = run_history(ctx, impl, events=h)
+        account(evs, obs, final, fails, "interface-order-%d" % i)
+        ctx.hist("origin", "interface-order")
     # 2. generated histories on the real code, with the direct oracle
     g = Gen(ctx.rng)
     nh = ctx.n(120, 2500)
@@ -630,6 +736,7 @@ def run(ctx):
         for k in range(0, len(hists), shard):
             correspond(ctx, impl, hists[k:k + shard], "cases_%d" % (k // shard))
         correspond_decref(ctx)
+    redeclare_probe(ctx, impl)
     if not ok and len(ctx.failures) == before:
         ctx.fail("proof-broken", "theorem closure props/C06.vo no longer builds against the regenerated gen/ReachGen.v:\n" + log[-2500:],
                  replay=dict(log=log[-6000:]), has_input=False)
